@@ -481,17 +481,19 @@ def var2h(se, nbsec_per_period=3600, maxgapsec=5*86400,
     display = np.int32(display)
     varvalues = se.values.astype(np.float64)
 
-    time = se.index.tz_localize(None).values
+    # Time stamps are processed as local (wall-clock) times
+    index = se.index.tz_localize(None)
+    time = index.values
     varsec = time.astype("datetime64[s]").astype(np.int64)
 
     # Determines start and end of time series
-    start = se.index[0]
+    start = index[0]
     hstart = datetime(start.year, start.month,
                       start.day, start.hour) + delta(hours=1)
     ref = datetime(1970, 1, 1)
     hstartsec = np.int64((hstart-ref).total_seconds())
 
-    end = se.index[-1]
+    end = index[-1]
     nvalh = np.int32((end-start).total_seconds()/nbsec_per_period)
     hvalues = np.nan*np.ones(nvalh, dtype=np.float64)
 
